@@ -18,7 +18,7 @@ one() {
   (cd $S/repo && git apply "$patch") || { echo "$name APPLY-FAILED"; rm -rf $S; return; }
   line="$name detected-by:"
   for id in $PROPS; do
-    out=$(GOFLAGS=-mod=mod GOPROXY=off GOSUMDB=off GOTOOLCHAIN=local GOWORK=off $V/bin/lz4verif check -repo $S/repo -verif $S/verif $id quick 2>&1); code=$?
+    out=$(GOFLAGS=-mod=mod GOPROXY=off GOSUMDB=off GOTOOLCHAIN=local GOWORK=off ${BIN:-$V/bin/lz4verif} check -repo $S/repo -verif $S/verif $id quick 2>&1); code=$?
     if [ $code = 1 ]; then
       rules=$(echo "$out" | grep -E '^(VIOLATED|UNDECIDED)' | sed -E 's/.*rule=([A-Za-z0-9.]+).*/\1/' | sort -u | tr '\n' ',' | sed 's/,$//')
       line="$line $id($rules)"
